@@ -114,8 +114,8 @@ EXPORT int vfwscanf_s(FILE *restrict stream, const wchar_t *restrict fmt,
 #endif
 
 #if defined(HAVE_WCSSTR) || !defined(SAFECLIB_DISABLE_EXTENSIONS)
-    if (unlikely((p = wcsstr((wchar_t *)fmt, L"%n")))) {
-        if ((p - fmt == 0) || *(p - 1) != L'%') {
+    if (unlikely((p = safec_find_percent_wn(fmt)))) {
+        { /* any n conversion, whatever flags, width or length modifier */
             invoke_safe_str_constraint_handler("vfwscanf_s: illegal %n", NULL,
                                                EINVAL);
             errno = EINVAL;
